@@ -44,7 +44,7 @@ GROUP_RESIDUES = ("ARG", "ASN", "ASP", "CYS", "GLN", "GLU", "HIS", "LYS", "SER",
 
 def generate(tier, seed):
     cases = []
-    nrand = 240 if tier == "quick" else 12000
+    nrand = 800 if tier == "quick" else 12000
     for k in range(nrand):
         cases.append({"kind": "random", "seed": "%d:r:%d" % (seed, k), "cost": 10})
     # systematic single and pair deletions
